@@ -324,7 +324,7 @@ theorem validateOutboundInternal_nps (pk : Packet) (s : Option Settings) (se : N
     rcases hs with hs | hs
     · obtain ⟨st, rfl⟩ := Option.isSome_iff_exists.mp hs
       simp only [validateOutboundInternal, vAuthInternal, vDisconnectInternal, vAckInternal, vPublishInternal, vPublishInternalWith,
-        vSubscribeInternal, vUnsubscribeInternal]
+        vSubscribeInternal, vUnsubscribeInternal, vSubscribeInternalWith, vUnsubscribeInternalWith]
       nps
     · cases hs
 
